@@ -27,7 +27,8 @@ def bounds(tier):
     q = tier == "quick"
     return {"dense": f"values 0..{8 if q else 9}, 1..{7 if q else 8} items, 1..5 bins",
             "planted": f"T=12, letters {LETTERS}, patterns with <=4 parts, k=3..{5 if q else 6} patterns",
-            "lpt-tight": "k=2..8"}
+            "planted-big": "T=12, every unordered pair of patterns (p, r) with multiplicities (a, b) in " + ("{(7,4),(12,12),(30,10)}" if q else "{(7,4),(12,12),(30,10),(9,40),(64,1)}") + ": k=a+b bins, up to 260 items",
+            "lpt-tight": "k=2..8", "presentation": "every input is given in a fixed non-sorted order"}
 
 
 def tasks(tier):
@@ -38,6 +39,15 @@ def tasks(tier):
     for k in ((3, 4, 5) if q else (3, 4, 5, 6)):
         for ch in spaces.chunked((it for it, _ in spaces.planted(T, LETTERS, k, maxparts=4)), 150):
             ts.append(("planted", ch, (k,)))
+    # large planted instances: every unordered pair of patterns x a grid of multiplicities (tens of bins, up to ~200 items)
+    pats = spaces.partitions_of(T, LETTERS, 4)
+    big = []
+    for i, p in enumerate(pats):
+        for r in pats[i:]:
+            for a, b in (((7, 4), (12, 12), (30, 10)) if q else ((7, 4), (12, 12), (30, 10), (9, 40), (64, 1))):
+                big.append(tuple(sorted(p * a + r * b, reverse=True)))
+    for ch in spaces.chunked(big, 40):
+        ts.append(("planted-big", ch, None))
     ts.append(("lpt-tight", [tuple(sorted([v for v in range(k + 1, 2 * k) for _ in (0, 1)] + [k, k, k], reverse=True)) for k in range(2, 9)], None))
     return ts
 
@@ -95,6 +105,7 @@ def run_task(task):
     scope, chunk, ks = task
     acc = Acc(ID, scope)
     for ms in chunk:
+        ms = scopes.scramble(ms)      # a non-sorted presentation: sorted input would hide a missing sort
         if scope == "dense":
             for k in ks:
                 o = O.opt_partition(tuple(ms), k)
@@ -102,6 +113,10 @@ def run_task(task):
                 acc.point(nontrivial=(g is not None and g != o["largest"]))
         elif scope == "planted":
             k = ks[0]
+            g = _judge(acc, ms, k, T, T)
+            acc.point(nontrivial=(g is not None and g != T))
+        elif scope == "planted-big":
+            k = sum(ms) // T
             g = _judge(acc, ms, k, T, T)
             acc.point(nontrivial=(g is not None and g != T))
         else:  # lpt tight family: n = 2k+1 items, optimum 3k, LPT 4k-1
